@@ -21,9 +21,13 @@ type params struct {
 	Close    bool // a closer thread calls Close at a chosen point
 	F        int
 	P        int
+	Later    int // number of further Writes issued once the transport is dead (budget exhausted / closed); the request queue holds 1024
 }
 
 func (p params) name() string {
+	if p.Later > 0 {
+		return fmt.Sprintf("w%d/attempts%d/close%v/F%d/P%d/later%d", p.Writers, p.Attempts, p.Close, p.F, p.P, p.Later)
+	}
 	return fmt.Sprintf("w%d/attempts%d/close%v/F%d/P%d", p.Writers, p.Attempts, p.Close, p.F, p.P)
 }
 
@@ -39,6 +43,9 @@ func scenarios(tier string) []vlib.Scenario {
 	add(params{Writers: 1, Attempts: 2, Close: true, F: 1})
 	add(params{Writers: 2, Attempts: 1, Close: true, F: 0, P: 1})
 	add(params{Writers: 1, Attempts: 1, F: 3})
+	// a caller that keeps retrying on a dead transport: more later Writes than the request queue holds
+	add(params{Writers: 1, Attempts: 1, F: 0, Later: 1100})
+	add(params{Writers: 1, Attempts: 1, F: 2, Later: 1100})
 	if tier == "thorough" {
 		for _, w := range []int{1, 2} {
 			for _, a := range []int{1, 2} {
@@ -127,6 +134,8 @@ type wres struct {
 }
 
 type world struct {
+	laterN  int
+	laterOK []string
 	p        params
 	trs      []*fakeTr
 	dials    []transport.DialConfig
@@ -278,11 +287,25 @@ func (w *world) main() {
 		_, w.finalR = tr.Read()
 	}
 	w.finalDone = true
+	later := func(tag string) {
+		for i := 0; i < w.p.Later; i++ {
+			w.laterN++
+			if err := tr.Write([]byte(fmt.Sprintf("later-%s-%d", tag, i))); err == nil {
+				w.laterOK = append(w.laterOK, fmt.Sprintf("%s-%d", tag, i))
+			}
+		}
+	}
+	if !w.closed && w.finalW != nil {
+		w.phase = "later-exhausted"
+		later("exhausted")
+	}
 	w.phase = "closing"
 	if !w.closed {
 		w.closed = true
 		tr.Close()
 	}
+	w.phase = "later-closed"
+	later("closed")
 	vsched.Sleep(5*time.Second, "h:drain")
 	w.phase = "done"
 }
@@ -321,6 +344,9 @@ func run(sc vlib.Scenario, cfg vsched.Config) (*vsched.Result, vlib.Verdict) {
 	}
 	if len(w.healthyClosed) > 0 {
 		v.Fail("C18.redial", fmt.Sprintf("healthy-connection-closed/dev=%v", dev), "the transport closed connection(s) %v although they had not failed and Close had not been called (%d failures injected, %d dials)", w.healthyClosed, w.failures, len(w.dials))
+	}
+	if len(w.laterOK) > 0 {
+		v.Fail("C18.later", "write-accepted-on-dead-transport", "Write %s returned nil although the transport was already dead", w.laterOK[0])
 	}
 	// every accepted write exactly once, in exactly one incarnation
 	count := map[string]int{}
